@@ -270,13 +270,7 @@ impl Sh {
                     return Err(Line::ack(ack, idx, if ack == 5 { b"" } else { name }, b"scripted error"));
                 }
                 match src {
-                    None => {
-                        if embedded {
-                            Ok(vec![]) // readpicture: no picture -> empty reply
-                        } else {
-                            Err(Line::ack(50, idx, name, b"No file exists"))
-                        }
-                    }
+                    None => Ok(vec![]), // no picture from this source: an empty reply
                     Some(data) => {
                         if off > data.len() {
                             return Err(Line::ack(2, idx, name, b"Bad file offset"));
